@@ -82,7 +82,7 @@ def _extra_graph(prog_name, outs, ins):
 
 def transform_job(prog: str, pipeline: tuple, seed: int = 0, decorate: bool = True) -> JobOut:
     import pytato as pt
-    progs = {p.name: p for p in C.corpus("thorough" if prog.startswith("gen") else "quick", seed)}
+    progs = {p.name: p for p in C.corpus("thorough" if prog.startswith(("gen", "g2_")) else "quick", seed)}
     P = progs[prog]
     data = {n: C.default_data(n, shp, dt, P) for n, shp, dt, _ in P.inputs}
     try:
